@@ -40,47 +40,78 @@ def run(prog, rep, tier='quick', config='default'):
     if not rep.anchor('get_delta_superficial_loss_info', g) or not rep.anchor('txs_to_delta_list', t):
         return
     # ------------------------------------------------------------------ R3a / R3d
+    # construction sites of the automatic SfLA rows: in g, in the helpers g reaches inside the bookkeeping, or in closures of those
+    tree = [g] + [x for x in prog.callees_closure([getattr(g, 'origin', g)]).values()
+                  if x.name != g.name and x.name.startswith('portfolio::bookkeeping::') and x.kind in ('Fn', 'AssocFn')]
+    tree += [h for x in list(tree) for h in prog.closures_of(x) if h not in tree]
     sfla = []
-    for i, b in g.blocks.items():
-        for s in b['stmts']:
-            if s['r']['rv'] == 'agg' and s['r']['kind'].endswith('TxActionSpecifics::Sfla'):
-                sfla.append((i, s))
+    for h in tree:
+        for i, b in h.blocks.items():
+            for s in b['stmts']:
+                if s['r']['rv'] == 'agg' and s['r']['kind'].endswith('TxActionSpecifics::Sfla'):
+                    sfla.append((h, i, s))
     if not sfla:
         rep.violation('R3a', 'anchor-lost:sfla-construction', fn=g.name, detail='anchor lost: construction of the automatic SfLA transaction')
-    for n, (i, s) in enumerate(sfla):
+
+    def reg_atom(fn, c):
+        if c.callee.endswith('Affiliate::registered'):
+            return ('registered', 'bool')
+        return None
+    for n, (h, i, s) in enumerate(sfla):
         guarded = False
-        for (sbb, discr, vals, neg) in g.conditions_at(i):
-            d = mir.provenance(g, discr, follow_all_call_args=True)
+        for (sbb, discr, vals, neg) in h.conditions_at(i):
+            d = mir.provenance(h, discr, follow_all_call_args=True)
             if any(c.callee.endswith('Affiliate::registered') for c in d.calls):
                 tr = truth_of(vals, neg)
                 if any(op == 'Not' for op, _ in d.binops):
                     tr = not tr
                 if not tr:
                     guarded = True
+        how = 'the adjustment row is built only on the not-registered edge of the receiving affiliate'
+        if not guarded and h.kind == 'Closure' and mir.filter_guarantees(prog, h, reg_atom).get('registered') is False:
+            guarded = True
+            how = 'the row is built by a map over items that passed a filter keeping only not-registered affiliates'
+        if h.kind == 'Closure':
+            # built by a closure of an iterator chain: nothing but `filter` may shorten the chain (take_while / skip / take / step_by
+            # would leave qualifying affiliates without their adjustment, so part of the denied loss is carried nowhere)
+            cut = []
+            for (par, hc, ai) in mir.handed_to(prog, h):
+                if ai >= 1 and hc.decl.startswith('std::iter::'):
+                    src = mir.provenance(par, hc.args[0], follow_all_call_args=False,
+                                         pass_through=mir.PASS_THROUGH | {'map', 'filter', 'into_iter', 'iter', 'enumerate', 'rev', 'copied', 'cloned',
+                                                                          'take_while', 'skip_while', 'take', 'skip', 'step_by', 'map_while', 'peekable'})
+                    cut += [x for x in src.calls if x.short in ('take_while', 'skip_while', 'take', 'skip', 'step_by', 'map_while') and x.decl.startswith('std::iter::')]
+            if cut:
+                rep.violation('R3a', 'sfla-row-for-every-affiliate#%d' % (n + 1), where=cut[0].where(), fn=h.name,
+                              detail='the affiliates receiving an adjustment pass through %s(): affiliates after the cut get no row although they '
+                                     'took part in the re-purchase — their share of the denied loss is added to no cost base' % cut[0].short)
+            else:
+                rep.ok('R3a', 'sfla-row-for-every-affiliate#%d' % (n + 1), where=h.where(s), fn=h.name,
+                       detail='the iterator chain feeding the row constructor is shortened by filter predicates only', trivial=True)
         k = 'sfla-only-for-non-registered#%d' % (n + 1)
         if guarded:
-            rep.ok('R3a', k, where=g.where(s), fn=g.name, detail='the adjustment row is built only on the not-registered edge of the receiving affiliate')
+            rep.ok('R3a', k, where=h.where(s), fn=h.name, detail=how)
         else:
-            rep.violation('R3a', k, where=g.where(s), fn=g.name,
+            rep.violation('R3a', k, where=h.where(s), fn=h.name,
                           detail='an automatic cost-base adjustment can be generated for a registered affiliate (no dominating !registered() test)')
         # R3d: amount depends on the denied amount and the affiliate's ratio
         inner = None
-        for b2 in g.blocks.values():
+        for b2 in h.blocks.values():
             for s2 in b2['stmts']:
                 if s2['r']['rv'] == 'agg' and s2['r']['kind'].endswith('SflaTxSpecifics::SflaTxSpecifics'):
                     inner = s2
         if inner is not None:
             for name, o in zip(inner['r'].get('fields', []), inner['r']['ops']):
                 if name == 'amount_per_share':
-                    org = mir.provenance(g, o, follow_all_call_args=True)
+                    org = mir.provenance(h, o, follow_all_call_args=True) if h is g else mir.deep_origins(prog, h, o, depth=5)
                     fs = {fl for of, fl in org.fields}
                     has_ratio = 'acb_adjust_affiliate_ratios' in fs
                     has_amount = org.has_call(r'mul_pos$') or 'sfl_ratio' in fs
                     k2 = 'sfla-amount-inputs#%d' % (n + 1)
                     if has_ratio and has_amount:
-                        rep.ok('R3d', k2, where=g.where(inner), fn=g.name, detail='depends on the computed denied amount and on acb_adjust_affiliate_ratios[affiliate]')
+                        rep.ok('R3d', k2, where=h.where(inner), fn=h.name, detail='depends on the computed denied amount and on acb_adjust_affiliate_ratios[affiliate]')
                     else:
-                        rep.violation('R3d', k2, where=g.where(inner), fn=g.name,
+                        rep.violation('R3d', k2, where=h.where(inner), fn=h.name,
                                       detail='the generated adjustment amount does not depend on %s' % ('the affiliate\'s ratio' if not has_ratio else 'the computed denied amount'))
     # ------------------------------------------------------------------ R3c: specified loss -> no automatic rows
     entry = None
@@ -96,7 +127,13 @@ def run(prog, rep, tier='quick', config='default'):
     else:
         region = {b for b in g.blocks if g.dominates(entry, b)}
         pushes = [c for c in g.calls if c.bb in region and c.short in ('push', 'extend', 'insert', 'append') and 'model::tx::Tx' in g.ty.get(c.arg_local(0), '')]
-        built = [s for (i, s) in sfla if i in region]
+        built = [s for (h, i, s) in sfla if h is g and i in region]
+        # helpers reached from the specified-loss branch that build adjustment rows
+        for c in g.calls:
+            hh = prog.resolve(c.callee, g.crate)
+            if c.bb in region and hh is not None and not c.inlined:
+                sub = {hh.name} | {x.name for x in prog.callees_closure([getattr(hh, 'origin', hh)]).values()}
+                built += [s for (h, i, s) in sfla if prog.owner_of(h).name in sub]
         if pushes or built:
             w = pushes[0].where() if pushes else g.where(built[0])
             rep.violation('R3c', 'specified-loss-suppresses-automatic-adjustments', where=w, fn=g.name,
@@ -106,7 +143,14 @@ def run(prog, rep, tier='quick', config='default'):
 
     # ------------------------------------------------------------------ R3b: inserted right after the sale, evaluated next
     ins = [c for c in t.calls if c.short == 'insert' and re.search(r'vec::Vec', c.callee) and 'model::tx::Tx' in t.ty.get(c.arg_local(0), '')]
-    if not ins:
+    # the same insertion written as  tail = list.split_off(i + 1); list.extend(new); list.extend(tail)
+    splices = []
+    for c in t.calls:
+        if c.short == 'split_off' and re.search(r'vec::Vec', c.callee) and 'model::tx::Tx' in t.ty.get(c.arg_local(0), '') and len(c.args) > 1:
+            exts = [x for x in t.calls if x.short in ('extend', 'append') and 'model::tx::Tx' in t.ty.get(x.arg_local(0), '') and t.dominates(c.bb, x.bb) and x.bb != c.bb]
+            exts.sort(key=lambda x: sum(1 for y in exts if t.dominates(y.bb, x.bb)))
+            splices.append((c, exts))
+    if not ins and not splices:
         rep.violation('R3b', 'anchor-lost:insert', fn=t.name, detail='anchor lost: insertion of generated transactions into the working list')
     # the loop counter: a user usize local compared with len() and incremented
     counters = set()
@@ -148,6 +192,30 @@ def run(prog, rep, tier='quick', config='default'):
                           detail='an iteration can return to the loop head without advancing the index (a `continue`): a transaction would be processed twice')
         else:
             rep.ok('R3b', 'loop-advances-by-one', fn=t.name, detail='every path from recording a delta back to the loop head passes the single `i += 1`')
+    ls_name = anchors.ledger_step(prog).name if anchors.ledger_step(prog) else 'delta_for_tx'
+    for (c, exts) in splices:
+        users, consts, ops, _calls = mir.expr_leaves(t, c.args[1])
+        uses_counter = any(l in users for (l, _) in counters)
+        has_one = [v for v in consts if re.match(r'^\d+_usize$', v)] == ['1_usize']
+        only_add = bool(ops) and all(op.startswith('Add') for op in ops)
+        order_ok = False
+        rows_ok = False
+        if len(exts) == 2:
+            first_src = mir.provenance(t, exts[0].args[1], follow_all_call_args=True)
+            second_src = mir.provenance(t, exts[1].args[1], follow_all_call_args=True)
+            order_ok = c in second_src.calls and c not in first_src.calls and t.dominates(exts[0].bb, exts[1].bb)
+            rows_ok = first_src.has_call(re.escape(ls_name) + '$')
+        if uses_counter and has_one and only_add and len(users) == 1 and order_ok:
+            rep.ok('R3b', 'inserted-directly-after-the-sale', where=c.where(), fn=t.name,
+                   detail='the list is split at i + 1, the generated rows are appended, then the split-off tail')
+        else:
+            rep.violation('R3b', 'inserted-directly-after-the-sale', where=c.where(), fn=t.name,
+                          detail='generated adjustments are not spliced in at position i + 1 of the working list (loop index: %s, +1: %s, additions only: %s, '
+                                 'new rows then tail: %s)' % (uses_counter, has_one, bool(only_add), order_ok))
+        if rows_ok:
+            rep.ok('R3b', 'inserted-rows-come-from-the-ledger-step', where=c.where(), fn=t.name, detail='the spliced rows are the ones delta_for_tx returned', trivial=True)
+        else:
+            rep.violation('R3b', 'inserted-rows-come-from-the-ledger-step', where=c.where(), fn=t.name, detail='rows spliced into the working list do not come from delta_for_tx')
     # the generated rows come from delta_for_tx's result
     for c in ins:
         o = mir.provenance(t, c.args[2], follow_all_call_args=True)
@@ -159,6 +227,18 @@ def run(prog, rep, tier='quick', config='default'):
     # ------------------------------------------------------------------ R3f: the over-applied marker comes from the window computation only
     DSI = 'portfolio::model::txdelta::DeltaSflInfo'
     n_set = 0
+    spec_region = {b for b in g.blocks if entry is not None and g.dominates(entry, b)}
+    g_tree = {x.name for x in prog.callees_closure([getattr(g, 'origin', g)]).values() if x.name.startswith('portfolio::bookkeeping::')}
+
+    def on_specified_branch(fn, bb, depth=0):
+        """the block lies in the branch handling a user-specified loss: in g itself, or in a helper of g that is only called there"""
+        if fn.name == g.name:
+            return bb in spec_region
+        owner = prog.owner_of(fn)
+        if depth > 3 or owner.name not in g_tree:
+            return False
+        callers = [c for c in prog.callers.get(owner.name, []) if not mir.is_testsupport(c.fn.name) and not c.inlined]
+        return bool(callers) and all(on_specified_branch(c.fn, c.bb, depth + 1) for c in callers)
     for fn in prog.product_fns():
         if fn.crate != 'acb' or fn.d['span']['exp'].startswith('m:'):
             continue    # derive(Clone/PartialEq/..) bodies copy the field verbatim
@@ -176,7 +256,7 @@ def run(prog, rep, tier='quick', config='default'):
                         n_set += 1
                         k = '%s|flag-source#%d' % (alias_name(prog, fn), n_set)
                         if o['k'] == 'const':
-                            if o.get('v') == 'false' and fn is g:
+                            if o.get('v') == 'false' and on_specified_branch(fn, [bi for bi, bb_ in fn.blocks.items() if bb_ is b][0]):
                                 rep.ok('R3f', k, where=fn.where(s), fn=fn.name, detail='constant false on the user-specified branch (no automatic adjustment exists there)', trivial=True)
                             else:
                                 rep.violation('R3f', k, where=fn.where(s), fn=fn.name, detail='the over-applied marker is a constant outside the user-specified branch')
